@@ -6,7 +6,7 @@ CONSTANTS
   HCap = 64
   Parts = 1
   WsMode = TRUE
-  MaxPub = 4
+  MaxPub = 5
   MaxRead = 3
   MaxStall = 2
   MaxSweep = 2
